@@ -519,7 +519,7 @@ fn run_leaf_inner(
         if let Outcome::Err(ErrKind::Io(e)) = &rec.got {
             return fail("io-error", format!("step {} {}: unexpected I/O error {}", i, op.short(), e));
         }
-        if rec.got != rec.expected {
+        if rec.got != rec.expected && !(mon.c13 && rec.expected.is_rejected_or_noop()) {
             if mon.conformance {
                 return fail(
                     "outcome-mismatch",
@@ -713,6 +713,11 @@ fn run_leaf_inner(
                 }
             }
         }
+        if rec.got != rec.expected {
+            // (C13 run: the spec'd no-op was checked for traces above; the mismatch itself is
+            // C05's question)
+            return fail("diverged", String::new());
+        }
         // ---- C16: memory accounting
         if mon.c16 {
             let ru = run.subject.log().resource_usage();
@@ -843,7 +848,7 @@ fn run_leaf_inner(
 // ---------------------------------------------------------------------------------------------
 // C14: lock-step over policy configurations (differential, no model verdict)
 
-pub const C14_CONFIGS: [PolicyCfg; 7] = [
+pub const C14_CONFIGS: [PolicyCfg; 8] = [
     PolicyCfg::Default,
     PolicyCfg::AlwaysFsync,
     PolicyCfg::DoNothing,
@@ -851,6 +856,7 @@ pub const C14_CONFIGS: [PolicyCfg; 7] = [
     PolicyCfg::DelayExpiredFlush,
     PolicyCfg::DelayExpiredFsync,
     PolicyCfg::DelayAltFlush,
+    PolicyCfg::DelayAltFlush1,
 ];
 
 struct PolicyRun {
